@@ -149,7 +149,8 @@ private theorem wrapInline_cL' (frags : List Frag) (vars : Vars) (w : String →
 
 /-- **wrap_inline_in_fragment_ge** — wrapping a block of selections of a fragment DEFINITION (at the top of its body
     or at any nesting level of it) in an inline fragment never lowers the depth the rule measures for ANY operation of
-    the document (it leaves it unchanged, and it is the specified depth in both documents). -/
+    the document (it leaves it unchanged, and it is the specified depth in both documents).
+    SUPERSEDED VARIANT: about `depthFixed` (strict variables); for the measure of the rule the tree runs see `wrap_inline_in_fragment_final`. -/
 theorem wrap_inline_in_fragment_ge (doc doc' : Doc) (vars : Vars) (hv : Valid doc vars) (hv' : Valid doc' vars)
     (pre post : List Frag) (f : Frag) (sels' : List Sel) (hw : WrapInline f.sels sels')
     (hfr : doc.frags = pre ++ [f] ++ post) (hfr' : doc'.frags = pre ++ [⟨f.name, sels'⟩] ++ post)
@@ -211,7 +212,8 @@ private theorem wrapSpread_cL_ctx (frags : List Frag) (vars : Vars) (w : String 
 /-- **wrap_spread_in_fragment_ge** — moving a block of selections of a fragment DEFINITION (at any nesting level of its
     body) into a new named fragment `nm` and spreading it there never lowers the depth the rule measures for ANY
     operation of the document (it leaves it unchanged = the specified depth in both documents).
-    `nm` is fresh: not defined in `doc` and not spread in the operation or in any fragment body of `doc`. -/
+    `nm` is fresh: not defined in `doc` and not spread in the operation or in any fragment body of `doc`.
+    SUPERSEDED VARIANT: about `depthFixed` (strict variables); for the measure of the rule the tree runs see `wrap_spread_in_fragment_final`. -/
 theorem wrap_spread_in_fragment_ge (doc doc' : Doc) (vars : Vars) (hv : Valid doc vars) (hv' : Valid doc' vars)
     (pre post : List Frag) (f : Frag) (nm : String) (body sels' : List Sel) (hw : WrapSpread nm body f.sels sels')
     (hfr : doc.frags = pre ++ [f] ++ post)
@@ -296,10 +298,10 @@ theorem validDeclR_available (doc : Doc) (defs : List (List VarDefR)) (raw : Raw
   availability hypothesis). Wrapping — in the operation or inside a fragment body — does not change it either: erasing the
   unevaluable directives commutes with the wrapping, and the wrapper itself carries no directive. -/
 
-private theorem eraseD_none (v : Vars) : eraseD v {} = {} := by
+theorem eraseD_none (v : Vars) : eraseD v {} = {} := by
   simp [eraseD, dirsBound, optBound]
 
-private theorem wrapInline_erase (v : Vars) {s s' : List Sel} (h : WrapInline s s') :
+theorem wrapInline_erase (v : Vars) {s s' : List Sel} (h : WrapInline s s') :
     WrapInline (eraseL v s) (eraseL v s') := by
   induction h with
   | here pre mid post =>
@@ -312,7 +314,7 @@ private theorem wrapInline_erase (v : Vars) {s s' : List Sel} (h : WrapInline s 
     simp only [eraseL_append, eraseL_cons, eraseSel, eraseL]
     exact .inline _ _ _ _ _ ih
 
-private theorem valid_erase (doc : Doc) (v : Vars) (hu : UniqueNames doc.frags) (ha : Acyclic doc.frags) :
+theorem valid_erase (doc : Doc) (v : Vars) (hu : UniqueNames doc.frags) (ha : Acyclic doc.frags) :
     Valid (eraseDoc v doc) v := by
   refine ⟨?_, ?_, ?_⟩
   · show acyclic (eraseFrags v doc.frags) = true
@@ -363,16 +365,16 @@ theorem wrap_inline_final (doc doc' : Doc) (v : Vars) (hu : UniqueNames doc.frag
   exact e
 
 mutual
-private theorem freeSel_erase (v : Vars) (nm : String) : ∀ s : Sel, freeSel nm (eraseSel v s) = freeSel nm s
+theorem freeSel_erase (v : Vars) (nm : String) : ∀ s : Sel, freeSel nm (eraseSel v s) = freeSel nm s
   | .field a n d sub => by simp only [eraseSel, freeSel]; exact freeL_erase v nm sub
   | .inline d ss => by simp only [eraseSel, freeSel]; exact freeL_erase v nm ss
   | .spread n d => by simp [eraseSel, freeSel]
-private theorem freeL_erase (v : Vars) (nm : String) : ∀ l : List Sel, freeL nm (eraseL v l) = freeL nm l
+theorem freeL_erase (v : Vars) (nm : String) : ∀ l : List Sel, freeL nm (eraseL v l) = freeL nm l
   | [] => by simp [eraseL, freeL]
   | s :: ss => by simp only [eraseL, freeL, freeSel_erase v nm s, freeL_erase v nm ss]
 end
 
-private theorem wrapSpread_erase (v : Vars) (nm : String) (body : List Sel) {s s' : List Sel} (h : WrapSpread nm body s s') :
+theorem wrapSpread_erase (v : Vars) (nm : String) (body : List Sel) {s s' : List Sel} (h : WrapSpread nm body s s') :
     WrapSpread nm (eraseL v body) (eraseL v s) (eraseL v s') := by
   induction h with
   | here pre post =>
